@@ -267,6 +267,15 @@ func pow2(t *rapid.T, label string, lo, hi int) float64 {
 func genStops(t *rapid.T) []Stop {
 	n := rapid.SampledFrom([]int{2, 2, 3, 3, 4, 5, 8, 20, 58}).Draw(t, "nstops")
 	offs := gen.Offsets(t, n, "off")
+	if n >= 3 && rapid.IntRange(0, 4).Draw(t, "hardedge") == 0 {
+		// a hard edge: a stop one float32 step above its predecessor (strictly increasing still)
+		i := rapid.IntRange(0, n-2).Draw(t, "hardedge.at")
+		if next := math.Nextafter32(offs[i], 2); i+2 >= n || next < offs[i+2] {
+			if next <= 1 {
+				offs[i+1] = next
+			}
+		}
+	}
 	out := make([]Stop, n)
 	for i := range out {
 		out[i] = Stop{Offset: ops.F32(offs[i]), Color: fmtColor(gen.PremulColor(t, "col"))}
